@@ -1,5 +1,6 @@
 CONSTANTS P = 83  A = 1  B = 7  Gx = 0  Gy = 16  N = 79  Mode = "sign"  RMax = 0
-CONSTANT ESet <- EAll
+CONSTANT ESet <- ETwo
+CONSTANT SSet <- SAll
 CONSTANT DSet <- DAll
 SPECIFICATION Spec
 INVARIANT Holds
